@@ -117,6 +117,7 @@ type job struct {
 	Scenario int   `json:"sc"`
 	Prefix   []int `json:"prefix"`
 	Deadline int64 `json:"deadline"` // unix seconds; 0 = none
+	Budget   int64 `json:"budget"`   // executions after which unexplored subtrees are handed back to the master as new jobs (0 = none)
 }
 
 type foundV struct {
@@ -177,6 +178,9 @@ func (a *jobResult) merge(b *jobResult) {
 
 const outcomeCap = 100000
 
+// jobBudget: executions a worker spends on one job before it hands the rest of the subtree back.
+const jobBudget = 4000
+
 type explorer struct {
 	scs      []*Scenario
 	sc       *Scenario
@@ -184,6 +188,7 @@ type explorer struct {
 	deadline time.Time
 	seenSig  map[string]bool
 	split    bool // emit children as jobs instead of recursing
+	budget   int64
 }
 
 func within(b, used int) bool { return b < 0 || used <= b }
@@ -278,7 +283,7 @@ func (e *explorer) explore(prefix []int) {
 				child := make([]int, i+1)
 				copy(child, chs[:i])
 				child[i] = alt
-				if e.split {
+				if e.split || (e.budget > 0 && e.res.Execs >= e.budget) {
 					e.res.Children = append(e.res.Children, job{Prefix: child})
 				} else {
 					e.explore(child)
@@ -297,7 +302,7 @@ func (e *explorer) explore(prefix []int) {
 }
 
 func runJob(scs []*Scenario, j job, split bool, seen map[string]bool) *jobResult {
-	e := &explorer{scs: scs, sc: scs[j.Scenario], res: newJobResult(), seenSig: seen, split: split}
+	e := &explorer{scs: scs, sc: scs[j.Scenario], res: newJobResult(), seenSig: seen, split: split, budget: j.Budget}
 	if j.Deadline > 0 {
 		e.deadline = time.Unix(j.Deadline, 0)
 	}
@@ -314,6 +319,7 @@ func runJob(scs []*Scenario, j job, split bool, seen map[string]bool) *jobResult
 	for i := range e.res.Children {
 		e.res.Children[i].Scenario = j.Scenario
 		e.res.Children[i].Deadline = j.Deadline
+		e.res.Children[i].Budget = j.Budget
 	}
 	return e.res
 }
@@ -450,19 +456,38 @@ func Explore(r *ev.Run, scs []*Scenario, cfg Config) *Summary {
 			in  *bufio.Writer
 			out *bufio.Reader
 		}
-		jobs := make(chan job, len(queue))
-		// larger subtrees (shorter prefixes) first
+		// dynamic work queue: a job that exceeds its execution budget hands its unexplored subtrees back
 		sort.SliceStable(queue, func(a, b int) bool { return len(queue[a].Prefix) < len(queue[b].Prefix) })
-		for _, j := range queue {
-			jobs <- j
+		for i := range queue {
+			queue[i].Budget = jobBudget
 		}
-		close(jobs)
+		var qmu sync.Mutex
+		qcond := sync.NewCond(&qmu)
+		inflight := 0
+		nextJob := func() (job, bool) {
+			qmu.Lock()
+			defer qmu.Unlock()
+			for len(queue) == 0 && inflight > 0 {
+				qcond.Wait()
+			}
+			if len(queue) == 0 {
+				return job{}, false
+			}
+			j := queue[0]
+			queue = queue[1:]
+			inflight++
+			return j, true
+		}
+		finishJob := func(children []job) {
+			qmu.Lock()
+			queue = append(queue, children...)
+			inflight--
+			qmu.Unlock()
+			qcond.Broadcast()
+		}
 		var mu sync.Mutex
 		var wg sync.WaitGroup
 		nw := cfg.Workers
-		if nw > len(queue) {
-			nw = len(queue)
-		}
 		var engineErr string
 		for w := 0; w < nw; w++ {
 			args := []string{"--worker", "--tier", r.Tier}
@@ -482,7 +507,11 @@ func Explore(r *ev.Run, scs []*Scenario, cfg Config) *Summary {
 			go func() {
 				defer wg.Done()
 				defer func() { stdin.Close(); _ = k.cmd.Wait() }()
-				for j := range jobs {
+				for {
+					j, ok := nextJob()
+					if !ok {
+						return
+					}
 					b, _ := json.Marshal(j)
 					k.in.Write(b)
 					k.in.WriteByte('\n')
@@ -492,6 +521,7 @@ func Explore(r *ev.Run, scs []*Scenario, cfg Config) *Summary {
 						mu.Lock()
 						engineErr = fmt.Sprintf("worker died on job %s: %v", b, err)
 						mu.Unlock()
+						finishJob(nil)
 						return
 					}
 					var res jobResult
@@ -499,6 +529,7 @@ func Explore(r *ev.Run, scs []*Scenario, cfg Config) *Summary {
 						mu.Lock()
 						engineErr = fmt.Sprintf("bad worker result: %v", err)
 						mu.Unlock()
+						finishJob(nil)
 						return
 					}
 					mu.Lock()
@@ -508,6 +539,9 @@ func Explore(r *ev.Run, scs []*Scenario, cfg Config) *Summary {
 						engineErr = res.EngineError
 					}
 					mu.Unlock()
+					children := res.Children
+					res.Children = nil
+					finishJob(children)
 				}
 			}()
 		}
